@@ -585,6 +585,10 @@ func cdBuildTypes() {
 			repo := storage.NewPeerRepository(store)
 			err := repo.Load(ctx)
 			l := repo.VerifCodecPeers()
+			err2 := repo.Load(ctx) // a second load on the same object: same outcome, no lock left behind
+			if (err == nil) != (err2 == nil) || (err == nil && len(repo.VerifCodecPeers()) != len(l)) {
+				panic("second load of the same peers file differs from the first")
+			}
 			return l, len(l), err
 		})
 	cdTypes["storage.Reorg"] = cdBufferDe(func(b *bytes.Buffer) (any, error) {
@@ -597,7 +601,12 @@ func cdBuildTypes() {
 	})
 	cdTypes["storage.ReorgActive"] = cdStoreDe(storage.VerifCodecReorgActivePath(),
 		func(ctx context.Context, store *VStore) (any, int, error) {
-			r, err := storage.NewReorgRepository(store).GetActive(ctx)
+			repo := storage.NewReorgRepository(store)
+			r, err := repo.GetActive(ctx)
+			r2, err2 := repo.GetActive(ctx)
+			if (err == nil) != (err2 == nil) || (r == nil) != (r2 == nil) {
+				panic("second read of the same reorg record differs from the first")
+			}
 			return r, int(b2i(r != nil)), err
 		})
 	// List() searches the prefix "spynode/reorgs"; archived entries live at spynode/reorgs/<id hex>
@@ -615,11 +624,29 @@ func cdBuildTypes() {
 			repo := storage.NewTxRepository(store)
 			err := repo.Load(ctx)
 			l := repo.VerifCodecUnconfirmedList()
+			err2 := repo.Load(ctx)
+			if (err == nil) != (err2 == nil) || (err == nil && len(repo.VerifCodecUnconfirmedList()) != len(l)) {
+				panic("second load of the same unconfirmed file differs from the first")
+			}
 			return l, len(l), err
 		})
+	// through the public path the headers handler uses (GetBlock takes the block lock; on success the caller
+	// releases it), twice on the same repository: a decode that fails must leave the repository usable
+	// (a lock kept on the error path makes the second call hang -> time-out class of the hostile run)
 	cdTypes["storage.TxBlock"] = cdStoreDe(storage.VerifCodecTxBlockPath(cdTxBlockHeight),
 		func(ctx context.Context, store *VStore) (any, int, error) {
-			l, err := storage.NewTxRepository(store).VerifCodecReadBlock(ctx, cdTxBlockHeight)
+			repo := storage.NewTxRepository(store)
+			l, err := repo.GetBlock(ctx, cdTxBlockHeight)
+			if err == nil {
+				repo.ReleaseBlock(ctx, cdTxBlockHeight)
+			}
+			l2, err2 := repo.GetBlock(ctx, cdTxBlockHeight)
+			if err2 == nil {
+				repo.ReleaseBlock(ctx, cdTxBlockHeight)
+			}
+			if (err == nil) != (err2 == nil) || len(l) != len(l2) {
+				panic("second decode of the same block tx file differs from the first")
+			}
 			return l, len(l), err
 		})
 }
